@@ -396,6 +396,17 @@ func genHReq(r *Rng, modelled bool) hreq {
 		return c
 	}, word(r, 8)) + ".example"})
 	names := []string{"User-Agent", "Accept", "X-Forwarded-For", "Cookie", "Authorization", "X-Custom", "Accept-Encoding", "Referer", "x-lower", "X-Custom"}
+	// hop-by-hop fields are relayed like any other ("unchanged")
+	switch r.Intn(6) {
+	case 0:
+		q.headers = append(q.headers, [2]string{"Connection", "keep-alive"}, [2]string{"Keep-Alive", "timeout=5, max=100"})
+	case 1:
+		q.headers = append(q.headers, [2]string{"Connection", "X-Trace"}, [2]string{"X-Trace", word(r, 8)})
+	case 2:
+		q.headers = append(q.headers, [2]string{"Proxy-Authorization", "Basic " + word(r, 12)}, [2]string{"TE", "trailers"})
+	case 3:
+		q.headers = append(q.headers, [2]string{"Upgrade", "h2c"}, [2]string{"Proxy-Connection", "keep-alive"})
+	}
 	used := map[string]bool{}
 	for k := r.Intn(11); k > 0; k-- {
 		v := strings.TrimSpace(strings.ReplaceAll(printableLine(r, 24), ":", ";"))
@@ -425,7 +436,7 @@ func genHReq(r *Rng, modelled bool) hreq {
 func genReply(r *Rng, i int) ([]byte, int, []byte) {
 	body := r.Bytes([]int{0, 2, 100, 5000, 65536}[r.Intn(5)])
 	status := []int{200, 404, 302, 500, 201}[r.Intn(5)]
-	return []byte(fmt.Sprintf("HTTP/1.1 %d %s\r\nX-Backend: b%d\r\nSet-Cookie: s=%d\r\nSet-Cookie: t=%d\r\nContent-Length: %d\r\n\r\n%s", status, http.StatusText(status), i, i, i+1, len(body), body)), status, body
+	return []byte(fmt.Sprintf("HTTP/1.1 %d %s\r\nX-Backend: b%d\r\nConnection: keep-alive\r\nKeep-Alive: timeout=5, max=%d\r\nSet-Cookie: s=%d\r\nSet-Cookie: t=%d\r\nContent-Length: %d\r\n\r\n%s", status, http.StatusText(status), i, 100+i, i, i+1, len(body), body)), status, body
 }
 
 func runRelayHTTP(prefix string, reqs []hreq, wire []byte, segs [][]byte, lockstep bool, replies [][]byte, rstat []int, rbody [][]byte, splits []int) {
@@ -490,7 +501,8 @@ func runRelayHTTP(prefix string, reqs []hreq, wire []byte, segs [][]byte, lockst
 			if reqs[i].method == "HEAD" {
 				wantBody = nil
 			}
-			if resp.StatusCode != rstat[k] || !bytes.Equal(body, wantBody) || resp.Header.Get("X-Backend") != fmt.Sprintf("b%d", k) || len(resp.Header["Set-Cookie"]) != 2 {
+			if resp.StatusCode != rstat[k] || !bytes.Equal(body, wantBody) || resp.Header.Get("X-Backend") != fmt.Sprintf("b%d", k) || len(resp.Header["Set-Cookie"]) != 2 ||
+				resp.Header.Get("Keep-Alive") != fmt.Sprintf("timeout=5, max=%d", 100+k) || resp.Header.Get("Connection") != "keep-alive" {
 				viol("reply-changed", fmt.Sprintf("reply %d: backend sent status %d, %d body bytes; client got status %d, %d body bytes, headers %v", i, rstat[k], len(wantBody), resp.StatusCode, len(body), resp.Header))
 			}
 		}
